@@ -7,6 +7,20 @@ use std::mem::MaybeUninit;
 use std::panic;
 
 use httparse::{Header, ParserConfig, Request, Response, Status};
+use std::alloc::{GlobalAlloc, Layout, System};
+use std::sync::atomic::{AtomicUsize, Ordering};
+
+/// counts heap allocations so that the parse calls can be bracketed (C19)
+struct Counting;
+static ALLOCS: AtomicUsize = AtomicUsize::new(0);
+unsafe impl GlobalAlloc for Counting {
+    unsafe fn alloc(&self, l: Layout) -> *mut u8 { ALLOCS.fetch_add(1, Ordering::Relaxed); System.alloc(l) }
+    unsafe fn dealloc(&self, p: *mut u8, l: Layout) { System.dealloc(p, l) }
+    unsafe fn realloc(&self, p: *mut u8, l: Layout, n: usize) -> *mut u8 { ALLOCS.fetch_add(1, Ordering::Relaxed); System.realloc(p, l, n) }
+}
+#[global_allocator]
+static GLOBAL: Counting = Counting;
+fn allocs() -> usize { ALLOCS.load(Ordering::Relaxed) }
 
 const MAXCAP: usize = 8;
 static SENT_NAMES: [&str; MAXCAP] = ["old0", "old1", "old2", "old3", "old4", "old5", "old6", "old7"];
@@ -65,16 +79,18 @@ fn run_req(entry: &str, flags: u32, cap: usize, buf: &[u8]) -> String {
     let mut empty: [Header; 0] = [];
     let (r, req_hdrs_len_before);
     let mut req;
+    let a0 = allocs();
     match entry {
         "req" => { req = Request::new(&mut arr[..cap]); req_hdrs_len_before = cap; r = req.parse(buf); }
         "req_cfg" => { req = Request::new(&mut arr[..cap]); req_hdrs_len_before = cap; r = c.parse_request(&mut req, buf); }
         "req_uninit" => { req = Request::new(&mut empty); req_hdrs_len_before = 0; r = req.parse_with_uninit_headers(buf, &mut un[..cap]); }
         _ => { req = Request::new(&mut empty); req_hdrs_len_before = 0; r = c.parse_request_with_uninit_headers(&mut req, buf, &mut un[..cap]); }
     }
+    let na = allocs() - a0;
     let (st, n) = status_json(&r, |x| *x);
     let utf = utf8_flag(req.method) && utf8_flag(req.path);
-    format!("{{\"status\":{},\"n\":{},\"method\":{},\"path\":{},\"version\":{},\"hlen\":{},\"hlen_before\":{},\"headers\":{},\"utf8\":{}}}",
-            st, n, opt_str(buf, req.method), opt_str(buf, req.path),
+    format!("{{\"status\":{},\"n\":{},\"allocs\":{},\"method\":{},\"path\":{},\"version\":{},\"hlen\":{},\"hlen_before\":{},\"headers\":{},\"utf8\":{}}}",
+            st, n, na, opt_str(buf, req.method), opt_str(buf, req.path),
             req.version.map(|v| v.to_string()).unwrap_or("null".into()),
             req.headers.len(), req_hdrs_len_before, headers_json(buf, req.headers), utf)
 }
@@ -86,34 +102,41 @@ fn run_resp(entry: &str, flags: u32, cap: usize, buf: &[u8]) -> String {
     let mut empty: [Header; 0] = [];
     let (r, before);
     let mut resp;
+    let a0 = allocs();
     match entry {
         "resp" => { resp = Response::new(&mut arr[..cap]); before = cap; r = resp.parse(buf); }
         "resp_cfg" => { resp = Response::new(&mut arr[..cap]); before = cap; r = c.parse_response(&mut resp, buf); }
         _ => { resp = Response::new(&mut empty); before = 0; r = c.parse_response_with_uninit_headers(&mut resp, buf, &mut un[..cap]); }
     }
+    let na = allocs() - a0;
     let (st, n) = status_json(&r, |x| *x);
     let utf = utf8_flag(resp.reason);
-    format!("{{\"status\":{},\"n\":{},\"version\":{},\"code\":{},\"reason\":{},\"hlen\":{},\"hlen_before\":{},\"headers\":{},\"utf8\":{}}}",
-            st, n, resp.version.map(|v| v.to_string()).unwrap_or("null".into()),
+    format!("{{\"status\":{},\"n\":{},\"allocs\":{},\"version\":{},\"code\":{},\"reason\":{},\"hlen\":{},\"hlen_before\":{},\"headers\":{},\"utf8\":{}}}",
+            st, n, na, resp.version.map(|v| v.to_string()).unwrap_or("null".into()),
             resp.code.map(|v| v.to_string()).unwrap_or("null".into()),
             opt_str(buf, resp.reason), resp.headers.len(), before, headers_json(buf, resp.headers), utf)
 }
 
 fn run_headers(cap: usize, buf: &[u8]) -> String {
     let mut arr = sentinels();
+    let a0 = allocs();
     let r = httparse::parse_headers(buf, &mut arr[..cap]);
+    let na = allocs() - a0;
     match r {
-        Ok(Status::Complete((n, hs))) => format!("{{\"status\":\"C\",\"n\":{},\"hlen\":{},\"headers\":{}}}", n, hs.len(), headers_json(buf, hs)),
-        Ok(Status::Partial) => "{\"status\":\"P\",\"n\":0,\"hlen\":0,\"headers\":[]}".into(),
-        Err(e) => format!("{{\"status\":\"E:{:?}\",\"n\":0,\"hlen\":0,\"headers\":[]}}", e),
+        Ok(Status::Complete((n, hs))) => format!("{{\"status\":\"C\",\"n\":{},\"allocs\":{},\"hlen\":{},\"headers\":{}}}", n, na, hs.len(), headers_json(buf, hs)),
+        Ok(Status::Partial) => format!("{{\"status\":\"P\",\"n\":0,\"allocs\":{},\"hlen\":0,\"headers\":[]}}", na),
+        Err(e) => format!("{{\"status\":\"E:{:?}\",\"n\":0,\"allocs\":{},\"hlen\":0,\"headers\":[]}}", e, na),
     }
 }
 
 fn run_chunk(buf: &[u8]) -> String {
-    match httparse::parse_chunk_size(buf) {
-        Ok(Status::Complete((n, size))) => format!("{{\"status\":\"C\",\"n\":{},\"size\":{}}}", n, size),
-        Ok(Status::Partial) => "{\"status\":\"P\",\"n\":0,\"size\":0}".into(),
-        Err(_) => "{\"status\":\"E:InvalidChunkSize\",\"n\":0,\"size\":0}".into(),
+    let a0 = allocs();
+    let r = httparse::parse_chunk_size(buf);
+    let na = allocs() - a0;
+    match r {
+        Ok(Status::Complete((n, size))) => format!("{{\"status\":\"C\",\"n\":{},\"allocs\":{},\"size\":{}}}", n, na, size),
+        Ok(Status::Partial) => format!("{{\"status\":\"P\",\"n\":0,\"allocs\":{},\"size\":0}}", na),
+        Err(_) => format!("{{\"status\":\"E:InvalidChunkSize\",\"n\":0,\"allocs\":{},\"size\":0}}", na),
     }
 }
 
